@@ -194,3 +194,13 @@ package submission
 //@ site GetSCTs#1 as gs
 //@ requires ctx != nil && d != nil && d.pendingLogsPolicy != nil
 //@ at gs assert [pending-logs-get-the-same-chain-under-their-own-groups] gs.groups == lbg.res0 && lbg.res1 == nil && gs.asPreChain == asPreChain
+
+// One submission to one log (C17): the log's own client, the endpoint that matches the kind of chain,
+// and the client's answer passed on unchanged.
+//@ func (*Distributor).SubmitToLog
+//@ props C17
+//@ may panic
+//@ modifies nothing
+//@ frame-trusted metrics only
+//@ requires d != nil
+//@ ensures [a-log-without-a-client-is-not-contacted] !old(has(d.logClients, logURL)) ==> result1 != nil && result0 == nil
